@@ -29,6 +29,7 @@ package webdoc
 import (
 	"fmt"
 	nurl "net/url"
+	"strings"
 
 	"github.com/go-shiori/dom"
 	"github.com/markusmobius/go-domdistiller/internal/domutil"
@@ -121,7 +122,14 @@ func (t *Text) GenerateOutput(textOnly bool) string {
 	}
 
 	if CanBeNested(dom.TagName(clonedRoot)) {
-		return dom.InnerHTML(clonedRoot)
+		// Several text elements may share one nestable root (e.g. text before and
+		// after a skipped element inside <li>), so surrounding whitespace must be
+		// kept, otherwise the adjacent words are fused in the concatenated output.
+		var inner strings.Builder
+		for child := clonedRoot.FirstChild; child != nil; child = child.NextSibling {
+			inner.WriteString(dom.OuterHTML(child))
+		}
+		return inner.String()
 	}
 
 	return dom.OuterHTML(clonedRoot)
